@@ -302,7 +302,7 @@ def mutable_fn_contracts(layouts, s, relpath, stub=False):
 
 # --------------------------------------------------------------------------------------------
 # immutable side: write / size / transpose_one / From<mutable::S>
-def immutable_specs(layouts, s, with_from=True):
+def immutable_specs(layouts, s, with_from=True, only_wf=False):
     L = layouts[s]['fields']
     out = []
     w = out.append
@@ -335,6 +335,9 @@ def immutable_specs(layouts, s, with_from=True):
             w('\t\t&&& (self.%s is Some) == %s' % (f.name, ge(f.since)))
             w('\t\t&&& (self.%s is Some ==> self.%s->Some_0.wf(v) && self.%s->Some_0.len_spec() == self.len_spec())' % (f.name, f.name, f.name))
     w('\t}')
+    if only_wf:
+        w('}')
+        return '\n'.join(out)
     # emit(acc, i, v): acc followed by the big-endian bytes of row i, fields in spec-table (offset) order
     w('\tpub open spec fn emit(&self, acc: Seq<u8>, i: int, v: Version) -> Seq<u8> {')
     k = 0
@@ -561,5 +564,139 @@ def mutable_null_lemmas(layouts, s):
         elif f.kind == 'sub':
             w('\t\tif %s { %s::lemma_null_step(a.%s->Some_0, m.%s->Some_0, b.%s->Some_0, v); }' % (ge(f.since), f.ty, f.name, f.name, f.name))
     w('\t}')
+    w('}')
+    return '\n'.join(out)
+
+
+# ------------------------------------------------------------------------------------------------
+# Arrow struct arrays (src/frame/immutable/peppi.rs): data_type / into_struct_array / from_struct_array
+ARROW_DT = {'u8': 'UInt8', 'i8': 'Int8', 'u16': 'UInt16', 'i16': 'Int16', 'u32': 'UInt32', 'i32': 'Int32', 'f32': 'Float32'}
+ARROW_BOX = {'u8': 'U8', 'i8': 'I8', 'u16': 'U16', 'i16': 'I16', 'u32': 'U32', 'i32': 'I32', 'f32': 'F32'}
+
+
+def arrow_fields(layouts, s):
+    """non-validity fields in struct order; the arrow position of a present field is its index here
+    (checked: gates never decrease along the list, so a present field has all earlier ones present)"""
+    F = [f for f in layouts[s]['fields'] if f.kind != 'validity']
+    last = (0, 0)
+    for f in F:
+        g = f.since or (0, 0)
+        if g < last:
+            raise GenError('struct %s: gate of %s is older than an earlier field, positional arrow mapping undefined' % (s, f.name))
+        last = g
+    if [f.off for f in F] != sorted(f.off for f in F):
+        raise GenError('struct %s: field order differs from the spec table order' % s)
+    return F
+
+
+def arrow_name(f):
+    return f.name[2:] if f.name.startswith('r#') else f.name
+
+
+def arrow_specs(layouts, s):
+    F = arrow_fields(layouts, s)
+    has_validity = any(f.kind == 'validity' for f in layouts[s]['fields'])
+    out = []
+    w = out.append
+    w('impl %s {' % s)
+    # number of fields present at a version (the per-version field table)
+    w('\tpub open spec fn arrow_count(v: Version) -> nat {')
+    e = str(sum(1 for f in F if not f.opt)) + 'nat'
+    gates = []
+    for f in F:
+        if f.opt and f.since not in gates:
+            gates.append(f.since)
+    expr = e
+    for g in gates:
+        n = sum(1 for f in F if not f.opt or f.since <= g)
+        expr = 'if %s { %dnat } else { %s }' % (ge(g), n, expr)
+    w('\t\t' + expr)
+    w('\t}')
+    w('\tpub open spec fn arrow_field(i: int, v: Version) -> FieldM {')
+    parts = []
+    for k, f in enumerate(F):
+        dt = 'DTm::%s' % ARROW_DT[f.ty] if f.kind == 'prim' else '%s::dtm(v)' % f.ty
+        parts.append('if i == %d { fm("%s"@, %s) } /*[%s.schema.%s]*/' % (k, arrow_name(f), dt, s, arrow_name(f)))
+    w('\t\t' + '\n\t\telse '.join(parts) + '\n\t\telse { arbitrary() }')
+    w('\t}')
+    w('\tpub open spec fn dtm(v: Version) -> DTm { DTm::Struct(Seq::new(Self::arrow_count(v), |i: int| Self::arrow_field(i, v))) }')
+    # exported(self, v, a): a is the struct array this column group must be exported as
+    w('\tpub open spec fn exported(self, v: Version, a: StructArray) -> bool {')
+    w('\t\t&&& a.wf()')
+    w('\t\t&&& dtv(a.data_type) == Self::dtm(v) /*[%s.export.schema]*/' % s)
+    w('\t\t&&& a.values@.len() == Self::arrow_count(v)')
+    w('\t\t&&& a.rows() == self.len_spec() /*[%s.export.rows]*/' % s)
+    w('\t\t&&& a.validity == %s /*[%s.export.validity]*/' % ('self.validity' if has_validity else 'None::<Bitmap>', s))
+    for k, f in enumerate(F):
+        g = '%s ==> ' % ge(f.since) if f.opt else ''
+        col = 'self.%s' % f.name + ('->Some_0' if f.opt else '')
+        lab = '/*[%s.export.%s]*/' % (s, arrow_name(f))
+        if f.kind == 'prim':
+            w('\t\t&&& (%sa.values@[%d] == ArrayBox::%s(%s)) %s' % (g, k, ARROW_BOX[f.ty], col, lab))
+        else:
+            w('\t\t&&& (%sa.values@[%d] is Struct && %s.exported(v, a.values@[%d]->Struct_0)) %s' % (g, k, col, k, lab))
+    w('\t}')
+    # imported(a, v, r): r is what importing a must give (positional)
+    w('\tpub open spec fn imported(a: StructArray, v: Version, r: Self) -> bool {')
+    if has_validity:
+        w('\t\t&&& r.validity == a.validity /*[%s.import.validity]*/' % s)
+    for k, f in enumerate(F):
+        lab = '/*[%s.import.%s]*/' % (s, arrow_name(f))
+        if f.kind == 'prim' and not f.opt:
+            w('\t\t&&& ArrayBox::%s(r.%s) == a.values@[%d] %s' % (ARROW_BOX[f.ty], f.name, k, lab))
+        elif f.kind == 'prim':
+            w('\t\t&&& (r.%s is Some) == (%d < a.values@.len()) && (r.%s is Some ==> ArrayBox::%s(r.%s->Some_0) == a.values@[%d]) %s' % (f.name, k, f.name, ARROW_BOX[f.ty], f.name, k, lab))
+        elif not f.opt:
+            w('\t\t&&& a.values@[%d] is Struct && %s::imported(a.values@[%d]->Struct_0, v, r.%s) %s' % (k, f.ty, k, f.name, lab))
+        else:
+            w('\t\t&&& (r.%s is Some) == (%d < a.values@.len()) && (r.%s is Some ==> a.values@[%d] is Struct && %s::imported(a.values@[%d]->Struct_0, v, r.%s->Some_0)) %s' % (f.name, k, f.name, k, f.ty, k, f.name, lab))
+    w('\t}')
+    w('}')
+    # round trip: import(export(x)) == x
+    w('pub proof fn lemma_arrow_roundtrip_%s(x: %s, v: Version, a: StructArray, y: %s)' % (s, s, s))
+    w('\trequires x.wf(v), x.exported(v, a), %s::imported(a, v, y)' % s)
+    if has_validity:
+        w('\tensures y == x')
+    else:
+        w('\tensures y == x')
+    w('{')
+    for k, f in enumerate(F):
+        if f.kind == 'sub':
+            if f.opt:
+                w('\tif %s { lemma_arrow_roundtrip_%s(x.%s->Some_0, v, a.values@[%d]->Struct_0, y.%s->Some_0); }' % (ge(f.since), f.ty, f.name, k, f.name))
+            else:
+                w('\tlemma_arrow_roundtrip_%s(x.%s, v, a.values@[%d]->Struct_0, y.%s);' % (f.ty, f.name, k, f.name))
+    w('}')
+    return '\n'.join(out)
+
+
+def arrow_fn_contracts(layouts, s, rel_peppi, twin_gate=None):
+    """contracts for the generated triple.  twin_gate=(M, m): additionally verify into_struct_array under
+    `version >= M.m` (used for End, whose export cannot exist below 3.7: known finding F4)."""
+    F = arrow_fields(layouts, s)
+    out = []
+    w = out.append
+    w('impl %s {' % s)
+    w('//@fn %s | impl %s | data_type | ret=res | tail' % (rel_peppi, s))
+    w('\tensures dtv(res) == %s::dtm(version) /*[C14.schema.%s]*/,' % (s, s))
+    w('//@before ret__#2')
+    w('\tproof { reveal_with_fuel(dtv, 3); reveal_with_fuel(fv, 3); assert(dtv(ret__)->Struct_0 =~= %s::dtm(version)->Struct_0); } /*[C14.schema.%s]*/' % (s, s))
+    w('//@end')
+
+    def into(twin):
+        opts = ' | twin=%s' % twin if twin else ''
+        w('//@fn %s | impl %s | into_struct_array | ret=res%s' % (rel_peppi, s, opts))
+        w('\trequires self.wf(version),')
+        if twin:
+            w('\t\t%s,' % ge(twin_gate, 'version'))
+        w('\tensures self.exported(version, res) /*[C14.export.%s]*/,' % s)
+        w('//@end')
+    into(None)
+    if twin_gate:
+        into('__v%d_%d' % twin_gate)
+    w('//@fn %s | impl %s | from_struct_array | ret=res' % (rel_peppi, s))
+    w('\trequires array.wf(), dtv(array.data_type) == %s::dtm(version),' % s)
+    w('\tensures %s::imported(array, version, res) /*[C14.import.%s]*/,' % (s, s))
+    w('//@end')
     w('}')
     return '\n'.join(out)
